@@ -142,6 +142,9 @@ class kFlowDecompCycles(walkmodel.AbstractWalkModelDiGraph):
 
 
         self.k = k
+        if not isinstance(self.k, int) or self.k <= 0:
+            utils.logger.error(f"{__name__}: k must be a positive integer, not {self.k}")
+            raise ValueError(f"k must be a positive integer, not {self.k}")
         self.optimization_options = dict(optimization_options) if optimization_options else {}        
 
         self.subset_constraints_coverage = subset_constraints_coverage
